@@ -34,12 +34,33 @@ impl Jail {
     pub fn target(&self) -> PathBuf {
         self.root.join("t/target")
     }
-    /// the destination as handed to `extract`: absolute, or relative to the process's working directory (`<jail>/cwd`)
-    pub fn target_arg(&self, relative: bool) -> PathBuf {
-        if relative {
-            PathBuf::from("../t/target")
-        } else {
-            self.target()
+    /// the destination as handed to `extract`: absolute (0), relative to the process's working directory `<jail>/cwd` (1),
+    /// or absolute through a symbolic link above the target, `<jail>/alias -> t` (2)
+    pub fn target_arg(&self, dest: u8) -> PathBuf {
+        match dest {
+            0 => self.target(),
+            1 => PathBuf::from("../t/target"),
+            2 => self.root.join("alias/target"),
+            _ => self.target(),
+        }
+    }
+    /// destination 3: the target exists already and holds links that lead out of it, under the names the alphabet uses
+    pub fn prepare(&self, dest: u8) {
+        if dest == 3 {
+            let t = self.target();
+            std::fs::create_dir_all(t.join("d")).unwrap();
+            std::os::unix::fs::symlink("../../outside-dir", t.join("l")).unwrap();
+            std::os::unix::fs::symlink("../../outside.txt", t.join("f")).unwrap();
+            std::os::unix::fs::symlink("../../outside.txt", t.join("s.txt")).unwrap();
+            std::os::unix::fs::symlink("../../../outside.txt", t.join("d/f")).unwrap();
+        }
+    }
+    pub fn dest_name(dest: u8) -> &'static str {
+        match dest {
+            0 => "<jail>/t/target (absolute)",
+            1 => "../t/target (relative to the working directory <jail>/cwd)",
+            2 => "<jail>/alias/target (absolute; <jail>/alias is a symbolic link to the directory t)",
+            _ => "<jail>/t/target (absolute), which exists already and holds l -> ../../outside-dir, f -> ../../outside.txt, s.txt -> ../../outside.txt, d/f -> ../../../outside.txt",
         }
     }
     pub fn outside_dir(&self) -> String {
@@ -53,6 +74,11 @@ impl Jail {
         }
         std::fs::write(self.root.join("outside.txt"), b"outside").unwrap();
         std::fs::write(self.root.join("outside-dir/keep"), b"keep").unwrap();
+        // symbolic links outside the target, under the names the alphabet uses below a link
+        for n in ["f", "l", "s.txt"] {
+            std::os::unix::fs::symlink("keep", self.root.join("outside-dir").join(n)).unwrap();
+        }
+        std::os::unix::fs::symlink("t", self.root.join("alias")).unwrap();
         std::fs::set_permissions(self.root.join("outside-dir"), std::fs::Permissions::from_mode(0o755)).unwrap();
         std::fs::set_permissions(self.root.join("outside.txt"), std::fs::Permissions::from_mode(0o644)).unwrap();
         std::env::set_current_dir(self.root.join("cwd")).unwrap();
@@ -176,12 +202,12 @@ fn mechanism(files: &[FFile]) -> &'static str {
     }
 }
 
-fn hostile_case(sub: &str, jail: &Jail, shapes: &[&Shape], stripped: bool, relative: bool, rank: u64, acc: &mut Acc) {
+fn hostile_case(sub: &str, jail: &Jail, shapes: &[&Shape], stripped: bool, dest: u8, rank: u64, acc: &mut Acc) {
     let files: Vec<FFile> = shapes.iter().map(|s| materialise(s, jail)).collect();
-    hostile_files(sub, jail, files, stripped, relative, rank, acc)
+    hostile_files(sub, jail, files, stripped, dest, rank, acc)
 }
 
-fn hostile_files(sub: &str, jail: &Jail, files: Vec<FFile>, stripped: bool, relative: bool, rank: u64, acc: &mut Acc) {
+fn hostile_files(sub: &str, jail: &Jail, files: Vec<FFile>, stripped: bool, dest: u8, rank: u64, acc: &mut Acc) {
     acc.evals += 1;
     jail.reset();
     let order: Vec<usize> = (0..files.len()).collect();
@@ -193,8 +219,8 @@ fn hostile_files(sub: &str, jail: &Jail, files: Vec<FFile>, stripped: bool, rela
     };
     let describe = || json!({"entries": files.iter().map(|f| json!({"dirname": f.dir, "basename": f.base.replace(&jail.outside_dir(), "<jail>/outside-dir"), "mode": format!("{:o}", f.mode), "linkto": f.linkto.replace(&jail.outside_dir(), "<jail>/outside-dir")})).collect::<Vec<_>>(),
                              "archive": if stripped { "stripped entries (by file index)" } else { "newc entries (by name)" },
-                             "extract_destination": if relative { "../t/target (relative to the working directory <jail>/cwd)" } else { "<jail>/t/target (absolute)" },
-                             "jail": "<jail>/{cwd (process cwd), t/ (parent of the target 't/target'), outside.txt, outside-dir/keep}"});
+                             "extract_destination": Jail::dest_name(dest),
+                             "jail": "<jail>/{cwd (process cwd), t/ (parent of the target 't/target'), alias -> t, outside.txt, outside-dir/{keep, f -> keep, l -> keep, s.txt -> keep}}"});
     let p = match parse_pkg(&x) {
         Ok(Ok(p)) => p,
         _ => {
@@ -202,8 +228,9 @@ fn hostile_files(sub: &str, jail: &Jail, files: Vec<FFile>, stripped: bool, rela
             return;
         }
     };
+    jail.prepare(dest);
     let before = jail.snapshot();
-    let r = catch(|| p.extract(jail.target_arg(relative)));
+    let r = catch(|| p.extract(jail.target_arg(dest)));
     let after = jail.snapshot();
     acc.nontrivial += 1;
     match &r {
@@ -287,7 +314,7 @@ fn model(x: &[u8]) -> Option<Vec<(String, u16, Vec<u8>, String)>> {
     Some(out)
 }
 
-fn benign_case(sub: &str, jail: &Jail, x: &[u8], umask: u32, relative: bool, rank: u64, case: &dyn Fn() -> Value, acc: &mut Acc) {
+fn benign_case(sub: &str, jail: &Jail, x: &[u8], umask: u32, dest: u8, rank: u64, case: &dyn Fn() -> Value, acc: &mut Acc) {
     acc.evals += 1;
     jail.reset();
     let Some(want) = model(x) else {
@@ -298,7 +325,7 @@ fn benign_case(sub: &str, jail: &Jail, x: &[u8], umask: u32, relative: bool, ran
     let before = jail.snapshot();
     // the process-wide umask is safe to change: C12 workers are single-threaded
     let old = unsafe { libc::umask(umask as libc::mode_t) };
-    let r = catch(|| p.extract(jail.target_arg(relative)));
+    let r = catch(|| p.extract(jail.target_arg(dest)));
     unsafe { libc::umask(old) };
     let mut bad = |clause: &str, what: String| {
         acc.viol(Violation::new(sub, what, case()).sig("clause", clause).rank(rank));
@@ -365,6 +392,13 @@ fn benign_specs() -> Vec<BuildSpec> {
         f.mode = ModeSpec::Regular(perm);
         let mut d = FileSpec::new("/p/dir", Content::Bytes(vec![]));
         d.mode = ModeSpec::Dir(perm | 0o700);
+        // an explicitly packaged directory that holds other packaged files (so its path is also one of the directory names)
+        let mut holder = FileSpec::new("/p/holder", Content::Bytes(vec![]));
+        holder.mode = ModeSpec::Dir(perm | 0o700);
+        let inner = FileSpec::new("/p/holder/inner", Content::Bytes(b"inner".to_vec()));
+        let mut sub = FileSpec::new("/p/holder/sub", Content::Bytes(vec![]));
+        sub.mode = ModeSpec::Dir((perm & 0o777) | 0o710);
+        let subfile = FileSpec::new("/p/holder/sub/x", Content::Bytes(b"x".to_vec()));
         let mut deep = FileSpec::new("/p/a/b/c/deep", Content::Text(10));
         deep.mode = ModeSpec::Inherit(0o644);
         let mut ln = FileSpec::new("/p/ln", Content::Bytes(vec![]));
@@ -382,7 +416,7 @@ fn benign_specs() -> Vec<BuildSpec> {
             .iter()
             .map(|p| FileSpec::new(p, Content::Bytes(format!("content of {}", p).into_bytes())))
             .collect();
-        s.files = vec![f, d, deep, ln, dangling, top, tmp, toml, bak];
+        s.files = vec![f, d, holder, inner, sub, subfile, deep, ln, dangling, top, tmp, toml, bak];
         s.files.extend(hidden);
         // destinations that are not in their shortest form
         for (p, dirmode) in [("/ns/demo//bin/tool.py", false), ("/ns/./demo/lib/x", false), ("/ns/demo/data/", true), ("//ns2/y", false)] {
@@ -408,21 +442,21 @@ pub fn sweeps(ctx: &Ctx) -> Vec<Sweep> {
     // singles over the full alphabet
     {
         let a = full.clone();
-        let n = a.len() as u64 * 4;
-        v.push(Sweep::new("hostile-1", format!("every single entry of the alphabet: dirname ∈ {:?} × basename ∈ {{f, l, .., ../f, \"\", absolute path inside the jail, l/f, l/s/f, s.tmp, s.txt}} × kind ∈ {{regular, directory, symlink → f | .. | ../.. | ../../outside.txt | ../../outside-dir | absolute jail path | ../../dangling (not existing), fifo}} ({} extractions: each as a newc archive and as stripped index-addressed entries, into an absolute and into a relative destination); snapshot of everything outside the target before/after extract; no panic", DIRS, n), n, {
+        let n = a.len() as u64 * 8;
+        v.push(Sweep::new("hostile-1", format!("every single entry of the alphabet: dirname ∈ {:?} × basename ∈ {{f, l, .., ../f, \"\", absolute path inside the jail, l/f, l/s/f, s.tmp, s.txt}} × kind ∈ {{regular, directory, symlink → f | .. | ../.. | ../../outside.txt | ../../outside-dir | absolute jail path | ../../dangling (not existing), fifo}} ({} extractions: each as a newc archive and as stripped index-addressed entries, into an absolute destination, a relative one, an absolute one that leads through a symbolic link above the target, and a target that exists already and holds links leading out of it); snapshot of everything outside the target before/after extract; no panic", DIRS, n), n, {
             let jail = Jail::new("h1");
-            move |i, acc| hostile_case("hostile-1", &jail, &[&a[(i / 4) as usize]], i % 2 == 1, i % 4 >= 2, i, acc)
+            move |i, acc| hostile_case("hostile-1", &jail, &[&a[(i / 8) as usize]], i % 2 == 1, (i % 8 / 2) as u8, i, acc)
         }));
     }
     // ordered pairs
     {
         let a = if ctx.thorough() { full.clone() } else { reduced.clone() };
         let m = a.len() as u64;
-        v.push(Sweep::new("hostile-2", format!("every ordered pair of entries over the {} alphabet ({} entries → {} packages): e.g. a symbolic link followed by a file of the same path or below it, duplicate paths, '..' in directory and base names, names that differ only in their extension; each as newc and as stripped archive", if ctx.thorough() { "full" } else { "reduced" }, m, m * m), m * m * 2, {
+        v.push(Sweep::new("hostile-2", format!("every ordered pair of entries over the {} alphabet ({} entries → {} packages): e.g. a symbolic link followed by a file of the same path or below it, duplicate paths, '..' in directory and base names, names that differ only in their extension; each as newc and as stripped archive, into an absolute and into a relative destination", if ctx.thorough() { "full" } else { "reduced" }, m, m * m), m * m * 4, {
             let jail = Jail::new("h2");
             move |j, acc| {
-                let (i, stripped) = (j / 2, j % 2 == 1);
-                hostile_case("hostile-2", &jail, &[&a[(i / m) as usize], &a[(i % m) as usize]], stripped, false, j, acc)
+                let (i, stripped, dest) = (j / 4, j % 2 == 1, (j % 4 / 2) as u8);
+                hostile_case("hostile-2", &jail, &[&a[(i / m) as usize], &a[(i % m) as usize]], stripped, dest, j, acc)
             }
         }));
     }
@@ -432,7 +466,7 @@ pub fn sweeps(ctx: &Ctx) -> Vec<Sweep> {
         let m = a.len() as u64;
         v.push(Sweep::new("hostile-3", format!("every ordered triple of entries over the reduced {}-entry alphabet ({} packages, newc archives)", m, m * m * m), m * m * m, {
             let jail = Jail::new("h3");
-            move |i, acc| hostile_case("hostile-3", &jail, &[&a[(i / m / m) as usize], &a[(i / m % m) as usize], &a[(i % m) as usize]], false, false, i, acc)
+            move |i, acc| hostile_case("hostile-3", &jail, &[&a[(i / m / m) as usize], &a[(i / m % m) as usize], &a[(i % m) as usize]], false, 0, i, acc)
         }));
         let core: Vec<Shape> = full.iter().filter(|s| ["/", "/l/"].contains(&s.dir) && [0u8, 1, 4, 6, 8, 9].contains(&s.base) && [0u8, 1, 5, 6, 9].contains(&s.kind)).cloned().collect();
         let c = core.len() as u64;
@@ -440,7 +474,7 @@ pub fn sweeps(ctx: &Ctx) -> Vec<Sweep> {
             let jail = Jail::new("h3c");
             move |j, acc| {
                 let (i, second) = (j / 2, j % 2 == 1);
-                hostile_case("hostile-3-core", &jail, &[&core[(i / c / c) as usize], &core[(i / c % c) as usize], &core[(i % c) as usize]], !second, second, j, acc)
+                hostile_case("hostile-3-core", &jail, &[&core[(i / c / c) as usize], &core[(i / c % c) as usize], &core[(i % c) as usize]], !second, second as u8, j, acc)
             }
         }));
     }
@@ -462,13 +496,13 @@ pub fn sweeps(ctx: &Ctx) -> Vec<Sweep> {
         let order: Vec<usize> = (0..files.len()).collect();
         pkgs.push((json!({"hand-encoded": "sample files"}), foreign::package("hand", &files, foreign::newc_archive(&files, &order), None, false).join().0));
         const UMASKS: [u32; 3] = [0o022, 0o077, 0o000];
-        let n = pkgs.len() as u64 * 6;
-        v.push(Sweep::new("benign", format!("{} extractions = umask ∈ {{022, 077, 000}} × destination {{absolute, relative to the working directory}} × benign packages (library-built: rich configuration plain / gzip / large-file layout, boundary sizes, every class of permission bits incl. setuid / setgid / sticky, nested directories, relative and dangling symbolic links, a top-level file; the six assets; a hand-encoded package): extraction succeeds and every regular file, directory and symbolic link the package lists exists at target+path with the archived content, permission bits and link target; nothing outside the target changes", n), n, {
+        let n = pkgs.len() as u64 * 9;
+        v.push(Sweep::new("benign", format!("{} extractions = umask ∈ {{022, 077, 000}} × destination {{absolute, relative to the working directory, absolute through a symbolic link above the target}} × benign packages (library-built: rich configuration plain / gzip / large-file layout, boundary sizes, every class of permission bits incl. setuid / setgid / sticky, packaged directories that hold other packaged files and directories, nested directories, relative and dangling symbolic links, a top-level file; the six assets; a hand-encoded package): extraction succeeds and every regular file, directory and symbolic link the package lists exists at target+path with the archived content, permission bits and link target; nothing outside the target changes", n), n, {
             let jail = Jail::new("bn");
             move |i, acc| {
-                let (d, x) = &pkgs[(i / 6) as usize];
-                let (um, rel) = (UMASKS[(i % 3) as usize], i % 6 >= 3);
-                let case = || json!({"package": d, "umask": format!("{:03o}", um), "extract_destination": if rel { "../t/target (relative)" } else { "absolute" }});
+                let (d, x) = &pkgs[(i / 9) as usize];
+                let (um, rel) = (UMASKS[(i % 3) as usize], (i % 9 / 3) as u8);
+                let case = || json!({"package": d, "umask": format!("{:03o}", um), "extract_destination": Jail::dest_name(rel)});
                 benign_case("benign", &jail, x, um, rel, i, &case, acc);
                 acc.sample(i, case);
             }
@@ -533,7 +567,7 @@ pub fn replay(_ctx: &Ctx, v: &Value) -> i32 {
         files.push(f);
     }
     let stripped = c["archive"].as_str().map(|a| a.starts_with("stripped")).unwrap_or(false);
-    let relative = c["extract_destination"].as_str().map(|a| a.starts_with("../")).unwrap_or(false);
+    let relative = c["extract_destination"].as_str().map(|a| if a.starts_with("../") { 1u8 } else if a.contains("alias") { 2 } else if a.contains("exists already") { 3 } else { 0 }).unwrap_or(0);
     let mut acc = Acc::new();
     hostile_files("replay", &jail, files, stripped, relative, 0, &mut acc);
     for (k, n) in &acc.hist {
